@@ -1,7 +1,7 @@
 (* Entry.v — single extracted entry point [run]: request = VList [VStr name; arg].
    All marshalling is done here in Gallina so that ocaml/driver.ml stays generic. *)
 From Coq Require Import ZArith List Bool String Ascii.
-From Verif Require Import PyStr Normalize NormalizeGen Util UtilGen Toc TocGen Footnote FootnoteGen Cli CliGen StoreGen.
+From Verif Require Import PyStr Normalize NormalizeGen Util UtilGen Toc TocGen Footnote FootnoteGen Cli CliGen StoreGen Rx UnicodeGen RxGen.
 Import ListNotations.
 Open Scope Z_scope.
 
@@ -31,6 +31,15 @@ Definition enc_cfg (c : config) : str :=
   [(if c_escape c then 49 else 48); (if c_hardwrap c then 49 else 48)] ++ c_renderer c ++ [0] ++ join [1] (c_plugins c) ++ [0].
 Definition rec_text (c : config) (m : str) : str := [84] ++ enc_cfg c ++ m.
 Definition rec_file (c : config) (f : str) : option str := Some ([70] ++ enc_cfg c ++ f).
+
+Fixpoint assoc_rx (k : str) (t : list (str * rx)) : option rx :=
+  match t with [] => None | (k', v) :: t' => if str_eqb k k' then Some v else assoc_rx k t' end.
+
+Definition enc_match (r : option mresult) : pval :=
+  match r with
+  | None => VNone
+  | Some (a, b, c) => VList [vnat a; vnat b; VList (map (fun e : nat * (nat * nat) => VList [vnat (fst e); vnat (fst (snd e)); vnat (snd (snd e))]) c)]
+  end.
 
 Definition run_named (name : str) (arg : pval) : pval :=
   if is_name name "norm" then
@@ -95,6 +104,18 @@ Definition run_named (name : str) (arg : pval) : pval :=
       let fix get (s : list (str * str)) (k : str) : str :=
           match s with [] => [] | (k', v) :: s' => if str_eqb k k' then v else get s' k end in
       VStr (join sc_sep (map (fun r => sc_group_open ++ r ++ sc_group_mid ++ get sp r ++ sc_group_close) rl))
+    | _ => VErr "arg" end
+  else if is_name name "rx" then
+    match arg with
+    | VList [VStr pname; VInt mode; VStr s; VInt pos; VInt endpos] =>
+      match assoc_rx pname rx_table with
+      | None => VErr "no such pattern"
+      | Some r =>
+        let p := Z.to_nat pos in let e := Z.to_nat endpos in
+        enc_match (if (mode =? 0)%Z then re_match U r s p e
+                   else if (mode =? 1)%Z then re_search U r s p e
+                   else re_fullmatch U r s p e)
+      end
     | _ => VErr "arg" end
   else VErr "unknown function".
 
